@@ -195,21 +195,39 @@ def lost_echo(fx, tier_="quick"):
     import random
     from common import parse_printed, tla_value, pmap, seed
     out = {"spec": "spec/fe/ClientImpl.tla", "observations": []}
-    r = run_tlc("ClientImpl", "CONSTANT MaxLost = 2\nSPECIFICATION Spec\nINVARIANT DiskNotAhead\nINVARIANT LagOnlyAfterLoss\nINVARIANT Searchable\n"
+    K = "CONSTANTS MaxLost = 2\nPersistSynced = TRUE\n"
+    r = run_tlc("ClientImpl", K + "SPECIFICATION Spec\nINVARIANT DiskNotAhead\nINVARIANT LagOnlyAfterLoss\nINVARIANT Searchable\n"
                               "PROPERTY RefinesClientSM\nCHECK_DEADLOCK FALSE\n", workers=2, heap="1g", name="clientimpl")
     out["model"] = {"distinct": r.distinct, "generated": r.generated, "checked": ["DiskNotAhead", "LagOnlyAfterLoss", "Searchable", "RefinesClientSM"]}
+    # the documented workflow as a goal-directed driver: it ends in a searchable service whatever echoes are lost ...
+    rd = run_tlc("ClientImpl", K + "SPECIFICATION DriverSpec\nINVARIANT DiskNotAhead\nINVARIANT Searchable\nPROPERTY Recoverable\nPROPERTY DriverProgress\n",
+                 workers=1, heap="1g", name="clientimpl-driver")
+    # ... and would not, if close_service did not store the connect-time synchronised flags after a refusal (sensitivity twin)
+    rt = run_tlc("ClientImpl", "CONSTANTS MaxLost = 2\nPersistSynced = FALSE\nSPECIFICATION DriverSpec\nPROPERTY Recoverable\n",
+                 workers=1, heap="1g", name="clientimpl-twin", allow_violation=True)
+    if rt.violated != "Recoverable":
+        raise MachineryError("ClientImpl: the twin without persist-on-refusal does not lose Recoverable")
+    out["model"]["driver"] = {"distinct": rd.distinct, "checked": ["Recoverable (liveness, WF on the driver)", "DriverProgress", "DiskNotAhead", "Searchable"],
+                              "twin_without_persist_on_refusal": "Recoverable violated, as it must be"}
     scen = [["create", "genkey", "encrypt", "upconfig!", "upconfig", "upindex", "search"],
             ["create", "genkey", "encrypt", "upconfig", "upindex!", "search", "upindex"],
             ["create", "genkey", "upconfig!", "encrypt", "upindex!", "search", "search"],
             ["create", "genkey", "encrypt", "upconfig", "upindex", "search"],
             ["create", "genkey", "encrypt", "upconfig!", "restart", "upindex", "restart", "search"]]
+    g = run_tlc("MC_ClientImpl", K + "D = 5\nSPECIFICATION DrvSpec\nINVARIANT DrvEmit\nINVARIANT DrvEndsInGoal\nCHECK_DEADLOCK FALSE\n", workers=1, heap="1g",
+                name="mcclientimpl-drv")
+    drv = sorted({tuple(tla_value(x)[1]) for x in parse_printed(g.out, "H")})
+    if len(drv) < 4:
+        raise MachineryError("MC_ClientImpl: driver histories missing")
+    out["model"]["driver"]["histories"] = [list(h) for h in drv]
+    scen += [list(h) for h in drv]
     nscen = len(scen)
     rnd = random.Random(seed() * 7919 + 11)
     gen = {}
     for D, take in ((5, 160 if tier_ == "quick" else None), (6, 0 if tier_ == "quick" else 900)):
         if take == 0:
             continue
-        g = run_tlc("MC_ClientImpl", "CONSTANTS MaxLost = 2\nD = %d\nSPECIFICATION MCSpec\nINVARIANT Emit\nCHECK_DEADLOCK FALSE\n" % D,
+        g = run_tlc("MC_ClientImpl", K + "D = %d\nSPECIFICATION MCSpec\nINVARIANT Emit\nCHECK_DEADLOCK FALSE\n" % D,
                     workers=4, heap="2g", name="mcclientimpl%d" % D)
         hs = sorted({tuple(tla_value(x)[1]) for x in parse_printed(g.out, "H")})
         if not hs:
@@ -224,7 +242,7 @@ def lost_echo(fx, tier_="quick"):
     for k, x in enumerate(res):
         if x["err"]:
             out["observations"].append("lost-echo history %s did not complete: %s" % (scen[k], x["err"]))
-    v, agg = validate_traces("Trace_ClientImpl", traces, consts="CONSTANT MaxLost = 2\n", name="clientimpl")
+    v, agg = validate_traces("Trace_ClientImpl", traces, consts=K, name="clientimpl")
     out["scenarios"] = [{"history": h, "verdict": v["lost%d" % k]} for k, h in enumerate(scen[:nscen])]
     bad = [(h, v["lost%d" % k]) for k, h in enumerate(scen) if not v["lost%d" % k]["ok"]]
     out["generated_histories"] = {"by_depth": gen, "replayed": len(scen) - nscen, "accepted": len(scen) - len(bad),
